@@ -18,6 +18,7 @@ type Trace struct {
 	Store  map[string][]byte `json:"store"`
 	Steps  []core.Req        `json:"steps"`               // Cwd is relative to the project root
 	Alt    []core.Req        `json:"alt_steps,omitempty"` // a second branch run from the same store (differential facts)
+	AltSt  map[string][]byte `json:"alt_store,omitempty"` // if set, the second branch starts from this store instead
 	FailIf []Assert          `json:"fail_if"`
 	Shell  []string          `json:"shell"` // the same commands as shell lines, for humans
 	Note   string            `json:"note,omitempty"`
@@ -83,7 +84,11 @@ func runTrace(env *core.Env, t Trace, verbose bool) bool {
 	var altLast core.Res
 	var altObs core.Obs
 	if len(t.Alt) > 0 {
-		if err := core.Store(t.Store).Materialize(root); err != nil {
+		altStore := core.Store(t.Store)
+		if t.AltSt != nil {
+			altStore = core.Store(t.AltSt)
+		}
+		if err := altStore.Materialize(root); err != nil {
 			env.HarnessError("replay materialize: %v", err)
 		}
 		for i, s := range t.Alt {
